@@ -75,7 +75,7 @@ def run(chk):
     stats = {"runs": 0, "tables": 0, "random_vars": 0, "deterministic_vars": 0, "echo_on": 0, "echo_off": 0}
     try:
         cases = []
-        for _ in range(220 if chk.thorough else 60):
+        for _ in range(1500 if chk.thorough else 60):
             ann = rng.choice([None, None, 1, 2, 3, 5])
             flag = rng.choice([None, None, 1, 2, 4])
             echo = rng.choice([None, None, "all", "none", "auto", ""])
